@@ -178,5 +178,5 @@ def _resolve_json_pointers(pattern: str, content: Dict[str, Any]) -> List[jsonpo
 
     ret: List[jsonpointer.JsonPointer] = []
     for matched_parts, _ in matched:
-        ret.append(jsonpointer.JsonPointer("/" + "/".join(matched_parts)))
+        ret.append(jsonpointer.JsonPointer("/" + "/".join(jsonpointer.escape(p) for p in matched_parts)))
     return ret
